@@ -493,6 +493,15 @@ func digitWriterWantsNegated(p *core.Program, fn *types.Func) bool {
 					negatesFirst = true
 				}
 			}
+		case *ast.CallExpr:
+			// the parameter handed on negated to a function of the module
+			if fn := calleeFunc(info, v); fn != nil && p.FuncOf(fn) != nil {
+				for _, a := range v.Args {
+					if u, ok := ast.Unparen(a).(*ast.UnaryExpr); ok && u.Op == token.SUB && isParam(u.X) {
+						negatesFirst = true
+					}
+				}
+			}
 		case *ast.UnaryExpr:
 			if v.Op == token.SUB {
 				ast.Inspect(v.X, func(m ast.Node) bool {
